@@ -483,6 +483,14 @@ func (q *TransferQueue) collectBatches() {
 		// never will.
 		if err != nil && !errors.IsRetriableError(err) {
 			q.wait.Abort()
+			// Nothing will be transferred any more, but the caller may
+			// still be adding objects: keep accepting (and dropping)
+			// them until Wait() closes the channel, or Add() blocks
+			// forever once the channel's buffer is full.
+			go func() {
+				for range q.incoming {
+				}
+			}()
 			break
 		}
 
